@@ -31,6 +31,7 @@ CONSTANTS
   SeedCompare,  \* "value" (code after the fix) | "identity" (`is not`, the defect)
   MaxDraws,     \* the position of the nugget stream saturates here (keeps the model finite)
   InitModels,   \* models at construction
+  UpdModels,    \* models handed over by the combined generator.update(model, period, mode_no) action
   DkRefresh     \* TRUE: Fourier.update recomputes delta_k / modes when the model changed (after the fix)
 
 VARIABLES pm, seed, modeNo, period, op,          \* ideal / public
@@ -71,15 +72,15 @@ ResetTo(c, s, g, d, ms, n) ==
 Unchanged(c) == [sobj |-> sobj[c], ztag |-> ztag[c], stag |-> stag[c], draws |-> draws[c]]
 
 (* generator.update(model = public model, seed = s or Keep, period, mode_no) *)
-UpdateCopy(c, s, newPeriod, newModeNo) ==
-  LET changed == gm[c] # pm
+UpdateCopyM(c, m, s, newPeriod, newModeNo) ==     \* m: the model handed to update()
+  LET changed == gm[c] # m
       per1 == IF newPeriod # Keep THEN newPeriod ELSE period
       \* delta_k is recomputed when a period is passed (code) or the model changed (after the fix)
-      dk1  == IF Kind = "Fourier" /\ (newPeriod # Keep \/ (DkRefresh /\ changed)) THEN DkOf(per1, pm) ELSE dk[c]
+      dk1  == IF Kind = "Fourier" /\ (newPeriod # Keep \/ (DkRefresh /\ changed)) THEN DkOf(per1, m) ELSE dk[c]
       n1   == IF newModeNo # Keep THEN newModeNo ELSE modeNo
       ms1  == IF Kind = "Fourier" /\ (newModeNo # Keep \/ newPeriod # Keep \/ (DkRefresh /\ changed))
               THEN ModesOf(dk1, n1) ELSE modes[c]
-      g1   == IF changed THEN pm ELSE gm[c]
+      g1   == IF changed THEN m ELSE gm[c]
       sNew == IF s = Keep THEN sobj[c] ELSE NewObj(c, s)
       r    == IF changed THEN ResetTo(c, sNew, g1, dk1, ms1, n1)
               ELSE IF s # Keep
@@ -87,6 +88,8 @@ UpdateCopy(c, s, newPeriod, newModeNo) ==
                    ELSE IF newModeNo # Keep \/ newPeriod # Keep
                         THEN ResetTo(c, sobj[c], g1, dk1, ms1, n1) ELSE Unchanged(c)
   IN [gm |-> g1, dk |-> dk1, modes |-> ms1] @@ r
+
+UpdateCopy(c, s, newPeriod, newModeNo) == UpdateCopyM(c, pm, s, newPeriod, newModeNo)
 
 Apply(f(_)) ==   \* f(c) is the record of new hidden values of copy c
   /\ gm'    = [c \in Copies |-> f(c).gm]
@@ -186,6 +189,17 @@ GenReset(s) ==
      IN Apply(f)
   /\ UNCHANGED <<pm, modeNo, period>>
 
+(* srf.model = <new model>; srf.generator.update(model = srf.model, period = p, mode_no = n)
+   several settings handed over in ONE update call (p, n may be Keep) *)
+GenUpdate(m, p, n) ==
+  /\ m # pm /\ (Kind = "RandMeth" => p = Keep /\ n = Keep)
+  /\ pm' = m
+  /\ period' = IF p = Keep THEN period ELSE p
+  /\ modeNo' = IF n = Keep THEN modeNo ELSE n
+  /\ op' = [name |-> "GenUpdate", m |-> m, p |-> p, n |-> n]
+  /\ LET f(c) == UpdateCopyM(c, m, Keep, p, n) IN Apply(f)
+  /\ UNCHANGED seed
+
 Next ==
   \/ \E s \in SeedVals \cup {Keep} : Call(s)
   \/ \E v \in VarVals : InPlace("var", v)
@@ -198,6 +212,7 @@ Next ==
   \/ \E p \in Periods : GenPeriod(p)
   \/ \E s \in SeedVals : GenSeed(s)
   \/ \E s \in SeedVals \cup {Keep} : GenReset(s)
+  \/ \E m \in UpdModels, p \in Periods \cup {Keep}, n \in ModeNos \cup {Keep} : GenUpdate(m, p, n)
 
 Spec == Init /\ [][Next]_vars
 
